@@ -265,6 +265,20 @@ def s_raw(E):
         return len(rows)
 
 
+def s_write_then_read(E):
+    # pending changes are flushed by the statement that follows them: a raw statement, a collection load, a query
+    with db_session:
+        a = E.A[1]
+        a2 = E.A[2]
+        a.val = 21
+        rows = E.db.select("id, val FROM A")
+        a2.val = 22
+        n = len(a.bs)
+        a.val = 23
+        m = select(b for b in E.B if b.a == a2).count()
+        return len(rows) + n + m
+
+
 def s_get_conn(E):
     with db_session:
         con = E.db.get_connection()
@@ -343,7 +357,7 @@ SHAPES = {
     'nested': s_nested, 'commit_more': s_commit_more, 'rollback_more': s_rollback_more,
     'generator': s_generator, 'gen_abandon': s_gen_abandon, 'gen_throw': s_gen_throw,
     'two_db': s_two_db, 'two_db_exc': s_two_db_exc, 'two_db_rollback': s_two_db_rollback, 'flush_error': s_flush_error, 'body_exc': s_body_exc, 'allowed_exc': s_allowed_exc,
-    'raw': s_raw, 'get_conn': s_get_conn, 'for_update': s_for_update, 'retry': s_retry,
+    'raw': s_raw, 'write_then_read': s_write_then_read, 'get_conn': s_get_conn, 'for_update': s_for_update, 'retry': s_retry,
     'disconnect_between': s_disconnect_between, 'bulk_delete': s_bulk_delete, 'collection': s_collection,
     'delete_cascade': s_delete_cascade, 'manual_rollback_exit': s_manual_rollback_exit, 'db_commit': s_db_commit,
 }
